@@ -218,20 +218,25 @@ impl GenericParamSet {
 /// Makes the invisible groups of `macro_rules!` fragments (`$e:expr`, `$t:ty`) visible where they matter: rustc does
 /// not honour them when it parses the output of a procedural macro, so `2 * $e` with `$e = 1 + 2` would otherwise mean
 /// `(2 * 1) + 2` and `&$t` with `$t = dyn A + B` would not parse.
-/// Only expressions with an operator and types with `+` are wrapped; every other fragment stays as it is.
+///
+/// A group is wrapped in parentheses only where its neighbours could bind into it: `a + b` / `a as T` next to an
+/// operator or in front of `.` / `?` / a call, `-a` / `&a` in front of `.` / `?` / a call, `A + B` types behind a pointer
+/// sigil. Everything else (`A = $e`, `f($e)`, `#[$meta]`, `impl Tr<$t> for $t`, lifetimes, paths, statements) stays as
+/// it is, so no fragment gains parentheses it does not need.
 pub fn parenthesize_invisible_groups(input: proc_macro2::TokenStream) -> proc_macro2::TokenStream {
-    use proc_macro2::{Delimiter, Group, TokenStream, TokenTree};
-    fn is_expr_with_operator(ts: TokenStream) -> bool {
-        matches!(
-            syn::parse2::<syn::Expr>(ts),
-            Ok(syn::Expr::Binary(_)
-                | syn::Expr::Unary(_)
-                | syn::Expr::Cast(_)
-                | syn::Expr::Range(_)
-                | syn::Expr::Assign(_)
-                | syn::Expr::Closure(_)
-                | syn::Expr::Reference(_))
-        )
+    use proc_macro2::{Delimiter, Group, Spacing, TokenStream, TokenTree};
+    #[derive(PartialEq)]
+    enum Kind {
+        Infix,
+        Prefix,
+        Other,
+    }
+    fn expr_kind(ts: TokenStream) -> Kind {
+        match syn::parse2::<syn::Expr>(ts) {
+            Ok(syn::Expr::Binary(_) | syn::Expr::Cast(_)) => Kind::Infix,
+            Ok(syn::Expr::Unary(_) | syn::Expr::Reference(_)) => Kind::Prefix,
+            _ => Kind::Other,
+        }
     }
     fn is_type_with_plus(ts: TokenStream) -> bool {
         match syn::parse2::<Type>(ts) {
@@ -249,12 +254,53 @@ pub fn parenthesize_invisible_groups(input: proc_macro2::TokenStream) -> proc_ma
             _ => false,
         }
     }
+    // the token before the group is the (last character of a) binary or unary operator
+    fn operator_before(prev: &[TokenTree]) -> bool {
+        match prev {
+            [.., TokenTree::Punct(q), TokenTree::Punct(p)] if p.as_char() == '=' => {
+                // `==`, `!=`, `<=`, `>=` (not `=`, `+=`, ..: an assignment binds weaker than anything)
+                q.spacing() == Spacing::Joint && "=!<>".contains(q.as_char())
+            }
+            [.., TokenTree::Punct(p)] => "+-*/%^&|!<>.".contains(p.as_char()),
+            _ => false,
+        }
+    }
+    // the tokens after the group continue it as a postfix expression
+    fn postfix_after(next: &[TokenTree]) -> bool {
+        match next {
+            [TokenTree::Punct(p), ..] => p.as_char() == '.' || p.as_char() == '?',
+            [TokenTree::Group(g), ..] => {
+                g.delimiter() == Delimiter::Parenthesis || g.delimiter() == Delimiter::Bracket
+            }
+            [TokenTree::Ident(i), ..] => i == "as",
+            _ => false,
+        }
+    }
+    // the tokens after the group start with a binary operator
+    fn operator_after(next: &[TokenTree]) -> bool {
+        match next {
+            [TokenTree::Punct(p), TokenTree::Punct(q), ..] if "=!".contains(p.as_char()) => {
+                // `==`, `!=` (not `=`, `=>`)
+                p.spacing() == Spacing::Joint && q.as_char() == '='
+            }
+            [TokenTree::Punct(p), ..] => "+-*/%^&|<>".contains(p.as_char()),
+            _ => false,
+        }
+    }
+    let input: Vec<TokenTree> = input.into_iter().collect();
     let mut ts = Vec::<TokenTree>::new();
-    for i in input {
-        if let TokenTree::Group(g) = &i {
-            let needs_parens = g.delimiter() == Delimiter::None
-                && (is_expr_with_operator(g.stream())
-                    || (is_pointer_prefix(&ts) && is_type_with_plus(g.stream())));
+    for (i, t) in input.iter().enumerate() {
+        if let TokenTree::Group(g) = t {
+            let needs_parens = g.delimiter() == Delimiter::None && {
+                let next = &input[i + 1..];
+                match expr_kind(g.stream()) {
+                    Kind::Infix => {
+                        operator_before(&ts) || operator_after(next) || postfix_after(next)
+                    }
+                    Kind::Prefix => postfix_after(next),
+                    Kind::Other => is_pointer_prefix(&ts) && is_type_with_plus(g.stream()),
+                }
+            };
             let delimiter = if needs_parens {
                 Delimiter::Parenthesis
             } else {
@@ -264,7 +310,7 @@ pub fn parenthesize_invisible_groups(input: proc_macro2::TokenStream) -> proc_ma
             g2.set_span(g.span());
             ts.push(TokenTree::Group(g2));
         } else {
-            ts.push(i);
+            ts.push(t.clone());
         }
     }
     ts.into_iter().collect()
